@@ -224,3 +224,33 @@ impl Num for Bps {
         self.0 as i128
     }
 }
+
+/// An 8-byte tree key ordered by `id` only (the `tag` is ignored by `PartialOrd`/`PartialEq`).
+#[repr(C)]
+#[derive(Copy, Clone, Default, Debug, Pod, Zeroable)]
+pub struct IdTag {
+    pub id: u32,
+    pub tag: u32,
+}
+impl PartialEq for IdTag {
+    fn eq(&self, o: &Self) -> bool {
+        self.id == o.id
+    }
+}
+impl PartialOrd for IdTag {
+    fn partial_cmp(&self, o: &Self) -> Option<Ordering> {
+        self.id.partial_cmp(&o.id)
+    }
+}
+impl Num for IdTag {
+    const SIZE: usize = 8;
+    const ALIGN: usize = 4;
+    const SIGNED: bool = false;
+    const NAME: &'static str = "idtag";
+    fn from_i(i: i128) -> Self {
+        IdTag { id: (i & 0xffff_ffff) as u32, tag: ((i >> 32) & 0xffff_ffff) as u32 }
+    }
+    fn to_i(self) -> i128 {
+        (self.id as i128) | ((self.tag as i128) << 32)
+    }
+}
